@@ -37,7 +37,8 @@ CLAIM = dict(
     "in-range integer positions and local, which is proved for order 0 (interpNearest_contracts) AND for order 1, the default "
     "(interpLinear_contracts); curv_cache_transparent (memory cache, any history), curv_filecache_transparent (use_cache file shared by "
     "several objects), curv_cache_stale_witness (before the fixes), adapt_neutral); IlluminationCorrection (illum_pure, illum_neutral, "
-    "illum_scalar_colourspace); active DriftCorrection with the translation estimate as parameter (drift_active). "
+    "illum_scalar_colourspace); inactive ColorCorrection ignores every other option (colour_inactive_ignores_options, near-definitional, "
+    "tied exactly for clip / whitebalancing / colorbalancing / balancing on values outside [0,1]); active DriftCorrection with the translation estimate as parameter (drift_active). "
     "DEFINITIONAL / TRIVIAL (labelled so in the Lean docstrings; no content beyond the model's definition): copy_mode_partial, "
     "overwrite_mode_partial, series_per_slice_partial, neutral_is_identity_partial, series_routine_precedence (toy-only: no DarSIA class "
     "defines correct_array_series), array_mode_def, trans_is_shift_def, trans_inactive_def, drift_inactive_def, concrete_workflow, "
@@ -675,6 +676,29 @@ def corr_round4(ctx, d):
         r = call(run)
         impl.append(repr(r) if isinstance(r, Raised) else r)
     ctx.correspond("IlluminationCorrection.correct_array (channel choice by colour space, integer store), exact", lines, impl)
+    # --- inactive ColorCorrection x every other option: img_as_float(.).astype(float32), no clipping
+    lines, vals = [], []
+    for i in range(ctx.pick(16, 96)):
+        dt = ["f64", "u8", "u16", "f64"][i % 4]
+        n0, n1 = rng.randint(1, 3), 3
+        a = rand_payload(rng, dt, (n0, n1))
+        if dt == "f64":
+            a = a * 2.0  # dyadic values in [-2, 2]: outside [0, 1] and negative
+        opts = dict(clip=bool(i % 2), whitebalancing=bool((i // 2) % 2), colorbalancing=("affine", "linear")[(i // 4) % 2],
+                    balancing=("darsia", "colour")[(i // 8) % 2])
+        lines.append(f"colinact {int(opts['clip'])} {int(opts['whitebalancing'])} {int(opts['colorbalancing'] == 'affine')} "
+                     f"{int(opts['balancing'] == 'colour')} {dt} {arr_tokens(a)}")
+
+        def run():
+            cc = d.ColorCorrection(config=dict({"active": False, "roi": [[0, 0], [3, 0], [3, 5], [0, 5]]}, **opts))
+            out = cc.correct_array(a.reshape(n0, 1, 3).copy() if False else a.copy())
+            if out.dtype != np.float32 or out.shape != a.shape:
+                raise TypeError(f"{out.dtype}{out.shape}")
+            return "f64 " + " ".join(str(n) for n in out.shape) + " | " + " ".join(fmt(v) for v in out.ravel())
+
+        r = call(run)
+        vals.append(repr(r) if isinstance(r, Raised) else r)
+    compare_lines(ctx, "ColorCorrection inactive x clip / whitebalancing / colorbalancing / balancing (float32 rounding: 1e-6)", lines, vals, float_rel=1e-6)
     # --- DriftCorrection (active) with the translation estimate stubbed
     lines, impl = [], []
     for i in range(ctx.pick(18, 150)):
@@ -784,6 +808,8 @@ def configs(d, rng):
 
     reg("curvature(crop)", curv_crop, dtypes=("float64", "uint8", "float32"), min_extent=8, max_extent=14)
     # --- drift
+    reg("drift(inactive,roi,padding)", lambda info: d.DriftCorrection(base=np.zeros(info["shape"][:2]),
+                                                                        config={"active": False, "padding": 0.1, "roi": (slice(0, 1), slice(0, 1))}), neutral=True)
     reg("drift(inactive)", lambda info: d.DriftCorrection(base=np.zeros(info["shape"][:2]), config={"active": False}), neutral=True)
     # --- transformation / affine / generalised perspective
     def transf(t):
@@ -840,6 +866,12 @@ def configs(d, rng):
     reg("generalized-perspective(fitted neutral)", fitted(d.GeneralizedPerspectiveCorrection, [0, 0]), neutral=True, min_extent=3)
     # --- colour
     inactive_conv = lambda a: _asfloat(a).astype(np.float32)  # noqa: E731
+    for k, opts in enumerate([dict(clip=True), dict(clip=True, colorbalancing="linear", whitebalancing=False),
+                              dict(clip=True, balancing="colour"), dict(clip=False, balancing="colour", colorbalancing="linear", verbosity=False)]):
+        reg(f"colour(inactive,{','.join(f'{a}={b}' for a, b in opts.items())})",
+            lambda info, opts=opts: d.ColorCorrection(config=dict({"active": False, "roi": [[0, 0], [3, 0], [3, 5], [0, 5]]}, **opts)),
+            kinds=("array", "optical", "optical-series"), dtypes=("float64", "float32", "uint8", "uint16"), channels=(3,), neutral=True,
+            conv=inactive_conv)
     reg("colour(inactive)", lambda info: d.ColorCorrection(config={"active": False, "roi": [[0, 0], [3, 0], [3, 5], [0, 5]]}),
         kinds=("array", "optical", "optical-series"), dtypes=("uint8", "uint16", "float32", "float64"), channels=(3,), neutral=True,
         conv=inactive_conv)
@@ -877,6 +909,18 @@ def configs(d, rng):
 
     reg("illumination(rgb)", illum_rgb, kinds=("array", "optical", "optical-series"), dtypes=("float64", "float32"), channels=(3,))
     reg("illumination", illum(False), kinds=("array", "optical", "optical-series"), dtypes=("float64", "float32"), channels=(3,))
+    def illum_neutral_rgb(info):
+        c = d.IlluminationCorrection()
+        c.colorspace = "rgb"
+        n0, n1 = info["shape"][:2]
+        c.local_scaling = [d.ScalarImage(np.ones((n0, n1)), dimensions=[1.0, 1.0]) for _ in range(3)]
+        return c
+
+    reg("illumination(neutral,rgb)", illum_neutral_rgb, kinds=("array", "optical", "optical-series"), dtypes=("float64", "float32", "uint8"),
+        channels=(3,), neutral=True)
+    reg("curvature(neutral,order=3,resize_factor=2)",
+        lambda info: d.CurvatureCorrection(config={"bulge": dict(zero_b), "stretch": dict(zero_s)}, interpolation_order=3, resize_factor=2.0),
+        dtypes=("float64", "float32"), neutral=True, min_extent=4, tol=1e-6)
     reg("illumination(neutral)", illum(True), kinds=("array", "optical", "optical-series"), dtypes=("float64", "float32", "uint8"),
         channels=(3,), neutral=True)
     return regs
@@ -909,6 +953,9 @@ def gen_raw(rng, cfg, kind, dtype, seed):
             raw = base
     elif dt.kind == "f":
         raw = r.random(shape).astype(dt)
+        if cfg["neutral"] and rng.random() < 0.6:
+            # neutral / inactive corrections must be the identity on ANY pixel values: outside [0, 1] and negative too
+            raw = (2.0 * r.random(shape) - 0.5).astype(dt)
     elif dt.kind == "u":
         raw = r.integers(0, np.iinfo(dt).max, size=shape, endpoint=True).astype(dt)
     else:
